@@ -40,7 +40,7 @@ extern "C" {
 
 #define AVTP_CRF_HEADER_LEN     (5 * AVTP_QUADLET_SIZE)
 
-typedef struct Avtp_Cvf {
+typedef struct Avtp_Crf {
     uint8_t header[AVTP_CRF_HEADER_LEN];
     uint8_t payload[0];
 } Avtp_Crf_t;
